@@ -79,6 +79,60 @@ def linecol(chk, n):
     chk.count('linecol_strings', len(recs))
 
 
+def _tok(rec):
+    from TexSoup.utils import Token
+    src = from_atoms(rec['s'])
+    p, n, op = rec['p'], rec['n'], rec['op']
+    t = Token(src[p:p + n], p)
+    k = op[0]
+    try:
+        if k == 'index':
+            r = t[int(op[1])]
+        elif k == 'slice':
+            r = t[int(op[1]):int(op[2])]
+        elif k in ('strip', 'lstrip', 'rstrip'):
+            chars = ''.join(from_atoms(op[1:])) or None
+            r = getattr(t, k)(chars) if chars else getattr(t, k)()
+        elif k == 'item':
+            r = list(iter(t))[int(op[1])]
+        elif k == 'addright':
+            m = int(op[1])
+            r = t + Token(src[p + n:p + n + m], p + n)
+            r2 = t + src[p + n:p + n + m]
+            if (str(r2), r2.position) != (str(r), r.position):
+                return {'got': [str(r2), r2.position], 'note': 'token + str differs from token + token'}
+        elif k == 'addleft':
+            m = int(op[1])
+            r = src[p - m:p] + t
+        else:
+            return {'got': 'unknown op'}
+    except Exception as e:   # noqa
+        return {'got': 'exc:' + type(e).__name__}
+    want = from_atoms(rec['t'])
+    if str(r) != want or (want != '' and r.position != rec['q']):
+        return {'got': [str(r), r.position], 'want': [want, rec['q']]}
+    return None
+
+
+def token_arith(chk, quick):
+    d = tlc.workdir('C13_token')
+    srcs = ['ab a', ' a  ', 'aa\na', 'xax', ' \t b'] if quick else ['ab a', ' a  ', 'aa\na', 'xax', ' \t b', 'abab ', '  ', 'a', 'ba ab']
+    defs = ['MCSrc == {%s}' % ', '.join(tlc.tla_seq(x) for x in srcs), 'MCStrip == {{}, {"a"}, {"a", " "}, {"x", "b"}}']
+    tlc.write_mc(d, 'MCT', 'TokenArith', defs, 'SPECIFICATION Spec\nCONSTANTS\n TSources <- MCSrc\n StripSets <- MCStrip\nINVARIANT SliceTrue\nINVARIANT Dump\nCHECK_DEADLOCK FALSE\n')
+    res = tlc.run(d, 'MCT', timeout=1800)
+    chk.add_tlc('token', res, 'TokenArith: every window of %d sources x index / slice / strip family / iteration / concatenation' % len(srcs))
+    if res.violated:
+        raise tlc.MachineryError('TokenArith violated %s' % res.violated)
+    recs = [r for r in res.records if 'op' in r]
+    out = obs.pmap(_tok, recs)
+    for r, b in zip(recs, out):
+        chk.case('tok:%s:%d:%d:%s' % (''.join(r['s']), r['p'], r['n'], r['op']))
+        if b:
+            chk.violation('C13-token-offset', {'kind': 'token', 'source': from_atoms(r['s']), 'token': from_atoms(r['s'])[r['p']:r['p'] + r['n']],
+                                               'token_position': r['p'], 'op': r['op'], 'mismatch': b})
+    chk.count('token_operations', len(recs))
+
+
 def run(chk):
     quick = chk.tier == 'quick'
     chk.rule = ('TLC generates every well-formed document within the budget with the offset of every node (Unparse) and the '
@@ -95,6 +149,7 @@ def run(chk):
         for r in sorted(recs, key=lambda r: -len(r['i']))[:2]:
             chk.sample({'source': from_atoms(r['i']), 'nodes': r['nodes']})
     linecol(chk, 9 if quick else 13)
+    token_arith(chk, quick)
     srcs = []
     for s in D.corpus_docs():
         soup, o = D.observe_doc(s)
